@@ -1674,6 +1674,15 @@ Proof.
   - auto.
 Qed.
 
+(* every decoder state that a history can reach satisfies the hypothesis [wf] of the soundness and
+   completeness theorems *)
+Theorem reachable_wf hd size evs : wf (run_events hd (decoder_new size) evs).
+Proof.
+  destruct (run_events_inv hd evs (decoder_new size) size) as (Hwf & _); [|exact Hwf].
+  unfold hist_inv, wf, decoder_new. cbn [d_table d_last_max d_queued table_new t_max].
+  split; [apply wf_table_new|]. split; [lia|]. split; [lia|exact I].
+Qed.
+
 (* Stronger bound by the limit currently in force, EXCEPT for the known finding KF-C11-3 (a
    lowered limit that the peer does not follow with a size update is not enforced). *)
 Theorem hpack_table_within_limit_except_known hd d frags :
